@@ -22,7 +22,7 @@ from harness.common import fhex
 
 GEN_MODULES = ['stat']
 MODEL_TARGETS = ['model/M_Stat.vo']
-PROOF_TARGETS = ['proofs/P_StatTop.vo']
+PROOF_TARGETS = ['proofs/P_StatTop.vo', 'proofs/P_StatGamma.vo']
 LEVEL = 'proof'
 RULE = ('history probes on real ZeroSigH0/MultiDataset likelihood objects (TS and calculate_ns_grad2 three times, interleaved), p-value helpers on a buffer refilled in place; fit results with ns <0, =0 (+0.0 and -0.0), >0, NaN/inf, any log-likelihood value, ns at every position of '
         '1..4 floating parameters with fixed parameters interleaved, wrong lengths / unknown names as malformed stream; '
@@ -35,11 +35,13 @@ TRUSTED = [
     'axioms printed by Print Assumptions: the standard-library Reals axioms (ClassicalDedekindReals.sig_not_dec, '
     'sig_forall_dec, functional_extensionality_dep) and Classical_Prop.classic; discrete theorems are closed',
     'translator/py2coq.py: per-element reading of the formulas, comparisons, indices and keyword arguments of '
-    'test_statistic.py, Analysis.calculate_test_statistic and utils/analysis.py (48 kernels of G_stat.v, each pinned by a K_ lemma)',
+    'test_statistic.py, Analysis.calculate_test_statistic and utils/analysis.py (58 kernels of G_stat.v, each pinned by a K_ lemma)',
     'extraction (ExtrOcamlBasic only) + hand-written OCaml driver ocaml/c12/driver.ml and float record ocaml/common/numf.ml',
     'hand model M_Stat.v of control flow, lookups, keyword binding and error paths, validated by this correspondence',
     'oracles (Section-style premises of the theorems): np.polyfit returns the coefficient list (highest power first); '
-    'calculate_ns_grad2 of the log-likelihood-ratio object returns the second derivative; np.sign; the gamma fit of _mixed',
+    'calculate_ns_grad2 of the log-likelihood-ratio object returns the second derivative; np.sign; the truncated-gamma fit + scipy.stats.gamma.sf '
+    'of the gamma-fit branch (contract: values in [0,1], positive at eta, non-increasing; the two values used by the implementation are '
+    'recorded and handed to the model)',
     'real-number reading: float rounding (and NaN/inf arithmetic) is outside the theorems; TS samples and thresholds are '
     'modelled as integers after dyadic scaling (exact for every finite float64 set)',
     'the public Analysis path is exercised on a real SingleSourceMultiDatasetLLHRatioAnalysis object created without '
@@ -970,6 +972,156 @@ def run_hist_poly_case(ctx, case):
         ctx.violation('polynomial_fit', 'argument-array-modified', 'ns / p / p_weight changed by the call', case=case)
 
 
+
+# ============================================================== gamma-fit branch of _mixed (REAL fit)
+
+def gen_gamma_case(ctx, rng, adversarial=False):
+    S = 2 ** TS_SHIFT
+    n = rng.choice([5, 12, 40, 100, 250])
+    vals = [0 if rng.random() < 0.5 else int(rng.gammavariate(0.5, 2.0) * S) for _ in range(n)]
+    if adversarial:
+        vals = sorted(vals, reverse=True)          # large TS values first: the truncated sample is not representative
+    sw = rng.choice([S // 2, S, S, 3 * S])
+    r = rng.random()
+    eta = None if r < 0.7 else rng.choice([sw, sw // 2, sw + S])
+    n_max = rng.choice([max(1, n // 5), max(1, n // 5), n, 2 * n, 500000]) if not adversarial else max(1, n // 5)
+    if rng.random() < 0.04:
+        n_max = rng.choice([0, -1])
+    thr = {sw, sw - 1, sw + 1, 0, sw // 2, sw - S // 4}
+    thr.update(rng.sample(vals, min(4, n)))
+    thr.update(sw + k * S for k in (1, 2, 4, 7, 11))
+    thr.update(rng.randrange(0, 14 * S) for _ in range(2))
+    if eta is not None:
+        thr.add(eta)
+    ctx.count(f'gamma:n_max:{"<len" if n_max < n else ("=len" if n_max == n else ">len")}')
+    ctx.count('gamma:eta:' + ('default' if eta is None else ('=switch' if eta == sw else ('<switch' if eta < sw else '>switch'))))
+    return {'kind': 'gamma', 'vals': vals, 'switch': sw, 'eta': eta, 'n_max': n_max, 'thr': sorted(thr),
+            'op': rng.choice(['greater', 'greater_equal', None])}
+
+
+class _GammaRec:
+    """scipy.stats.gamma with the calls of sf recorded (everything else delegated)"""
+    def __init__(self, real):
+        self._real = real
+        self.sf_calls = []
+
+    def sf(self, x, *a, **kw):
+        v = self._real.sf(x, *a, **kw)
+        self.sf_calls.append((float(x), float(v)))
+        return v
+
+    def __getattr__(self, name):
+        return getattr(self._real, name)
+
+
+def run_gamma_case(ctx, case, lines, checks):
+    import skyllh.core.utils.analysis as UA
+    vals, sw, eta, n_max, op = case['vals'], case['switch'], case['eta'], case['n_max'], case['op']
+    n = len(vals)
+    arr = np.array([z2f(v) for v in vals], dtype=np.float64)
+    snap = arr.tobytes()
+    zs = ' '.join(str(v) for v in vals)
+    eta_eff = sw if eta is None else eta
+    opw = 'gt' if op == 'greater' else 'ge'
+    trunc = vals[:n_max] if n > n_max else vals                      # independent reading of the docstring
+    tail = [v for v in trunc if v > eta_eff]
+    site = 'calculate_pval_from_trials_mixed'
+    results = []
+    for t in case['thr']:
+        rec = _GammaRec(UA.gamma)
+        fit_in = []
+        orig_gamma, orig_tg = UA.gamma, UA.truncated_gamma_logpdf
+
+        def tg(a, scale, eta, ts_above_eta, N_above_eta):
+            if not fit_in:
+                fit_in.append((float(eta), np.array(ts_above_eta, dtype=np.float64).tolist(), int(N_above_eta)))
+            return orig_tg(a, scale, eta, ts_above_eta, N_above_eta)
+        UA.gamma, UA.truncated_gamma_logpdf = rec, tg
+        try:
+            kws = {} if op is None else {'comp_operator': op}
+            if eta is not None:
+                kws['eta'] = z2f(eta)
+            with warnings.catch_warnings():
+                warnings.simplefilter('ignore')
+                r = UA.calculate_pval_from_trials_mixed(arr, z2f(t), switch_at_ts=z2f(sw), n_max=n_max, **kws)
+            impl = ['Ok', float(r[0]), float(r[1])]
+        except Exception as ex:
+            impl = ['Err', exc_name(ex)]
+        finally:
+            UA.gamma, UA.truncated_gamma_logpdf = orig_gamma, orig_tg
+        sub = {'kind': 'gamma', 'vals': vals, 'switch': sw, 'eta': eta, 'n_max': n_max, 'thr': [t], 'op': op}
+        regime = 'below' if t < sw else ('at' if t == sw else 'above')
+        ctx.count('gamma:' + regime)
+        s_eta, s_thr = 1.0, 1.0
+        if t >= sw and impl[0] == 'Ok':
+            main_calls = [c for c in rec.sf_calls]
+            if len(main_calls) < 2 or main_calls[-2][0] != z2f(eta_eff) or main_calls[-1][0] != z2f(t):
+                ctx.violation(site, 'survival-function-evaluated-elsewhere',
+                              f'gamma.sf called at {[c[0] for c in main_calls[-2:]]}, expected eta={z2f(eta_eff)} and threshold={z2f(t)}',
+                              case=sub, impl=impl)
+                continue
+            s_eta, s_thr = main_calls[-2][1], main_calls[-1][1]
+            if not (0 < s_eta <= 1 and 0 <= s_thr <= 1 and s_thr <= s_eta * (1 + 1e-12)):
+                ctx.count('gamma:oracle-contract-not-met')     # underflow of sf(eta): outside the theorem's premises
+                continue
+            # what was handed to the fit
+            if fit_in and (fit_in[0][1] != [z2f(v) for v in tail] or fit_in[0][2] != len(tail) or fit_in[0][0] != z2f(eta_eff)):
+                ctx.violation(site, 'fit-input-not-the-tail-of-the-truncated-sample',
+                              f'fit got {fit_in[0][2]} values above eta={fit_in[0][0]}, the first n_max trials have {len(tail)}',
+                              case=sub, impl=impl, predicate='the tail is selected from the trials used for the fit')
+        lines.append(f'mixedfull {opw} {t} {sw} {"-" if eta is None else eta} {n_max} {fhex(s_eta)} {fhex(s_thr)} | {zs}')
+        checks.append(('calculate_pval_from_trials_mixed.full', sub, impl))
+        if impl[0] != 'Ok':
+            legal = n > 0 and (t < sw or t >= eta_eff) and (t < sw or len(trunc) > 0)
+            if legal:
+                ctx.violation(site, 'raises-' + impl[1], f'raises for a legal input (threshold {regime} the switch)', case=sub, impl=impl)
+            continue
+        p = impl[1]
+        if not (-1e-12 <= p <= 1 + 1e-12):
+            ctx.violation(site, 'out-of-range', f'p({z2f(t)}) = {p} ({regime} the switch, {n} trials, n_max = {n_max})',
+                          case=sub, impl=impl, predicate='p in [0,1]')
+        if t >= sw and t == eta_eff and len(trunc) > 0:
+            want = len(tail) / len(trunc)
+            if abs(p - want) > 1e-12 * max(want, 1e-300):
+                ctx.violation(site, 'gamma-value-at-eta-not-the-tail-fraction',
+                              f'p(eta) = {p}, tail fraction of the trials used = {len(tail)}/{len(trunc)}', case=sub, impl=impl,
+                              predicate='at eta the gamma-fit p-value equals the fraction of trials above eta')
+        results.append((t, regime, p))
+    # monotonicity over the sorted thresholds
+    for (t0, r0, p0), (t1, r1, p1) in zip(results, results[1:]):
+        if p1 <= p0 + 1e-12 * max(1.0, p0):
+            continue
+        pair = {'kind': 'gamma', 'vals': vals, 'switch': sw, 'eta': eta, 'n_max': n_max, 'thr': [t0, t1], 'op': op}
+        if r0 == 'below' and r1 != 'below':
+            if eta is not None and eta != sw:
+                ctx.count('gamma:increase-across-switch-with-explicit-eta(not promised)')
+            elif n > n_max:
+                ctx.violation(site, 'increases-across-switch-truncated-sample',
+                              f'p({z2f(t0)}) = {p0} < p({z2f(t1)}) = {p1} with {n} trials and n_max = {n_max}',
+                              case=pair, impl=[p0, p1], predicate='p non-increasing in the threshold')
+            else:
+                ctx.violation(site, 'increases-across-switch', f'p({z2f(t0)}) = {p0} < p({z2f(t1)}) = {p1}',
+                              case=pair, impl=[p0, p1], predicate='p non-increasing in the threshold')
+        else:
+            ctx.violation(site, 'not-monotone-' + r1 + '-switch', f'p({z2f(t0)}) = {p0} < p({z2f(t1)}) = {p1}',
+                          case=pair, impl=[p0, p1], predicate='p non-increasing in the threshold')
+    # repeat probe on the unpatched function + arguments unchanged
+    ts_rep = [t for t in case['thr'] if t >= max(sw, eta_eff)][:1]
+    for t in ts_rep:
+        try:
+            with warnings.catch_warnings():
+                warnings.simplefilter('ignore')
+                kws = {} if eta is None else {'eta': z2f(eta)}
+                a1 = UA.calculate_pval_from_trials_mixed(arr, z2f(t), switch_at_ts=z2f(sw), n_max=n_max, **kws)
+                a2 = UA.calculate_pval_from_trials_mixed(arr, z2f(t), switch_at_ts=z2f(sw), n_max=n_max, **kws)
+            if len(bits([a1[0], a2[0]])) != 1:
+                ctx.violation(site, 'repeated-call-differs', f'{a1} {a2}', case=case)
+        except Exception:
+            pass
+    if arr.tobytes() != snap:
+        ctx.violation(site, 'argument-array-modified', 'ts_vals changed by the call', case=case)
+
+
 # ============================================================== driver
 
 def canon_impl(site, impl):
@@ -994,6 +1146,17 @@ def compare(ctx, checks, out):
         if site == 'calculate_ns_grad2.signature':
             model = line.strip()
             if model != impl:
+                ctx.disagree(site, case, impl, model)
+            continue
+        if site == 'calculate_pval_from_trials_mixed.full':
+            w = line.split()
+            if w and w[0] == 'Ok':
+                model = ['Ok', float.fromhex(w[1]) if w[1] not in ('nan', 'inf', '-inf') else float(w[1]), float.fromhex(w[2])]
+            elif w and w[0] == 'Err':
+                model = ['Err', w[1]]
+            else:
+                model = ['unparsed', line]
+            if not res_eq(impl, model):
                 ctx.disagree(site, case, impl, model)
             continue
         if site == 'calculate_pval_from_trials_mixed':
@@ -1044,6 +1207,12 @@ def corpus_cases():
     out.append({'kind': 'poly', 'ns': [0.0, 1.0, 2.0, 3.0, 4.0], 'p': [0.2, 0.25, 0.4, 0.6, 0.9],
                 'w': [10.0] * 5, 'deg': 2, 'p_thr': 0.5})            # convex: falls back to degree 1
     out.append({'kind': 'poly', 'ns': [0.0, 1.0, 2.0], 'p': [0.2, 0.5, 0.9], 'w': [1.0] * 3, 'deg': 2, 'p_thr': 0.5})
+    # gamma-fit branch: more trials than n_max (seeded C12-6: tail selected before the truncation); the sorted sample is
+    # the deterministic witness of the open finding (p increases across the switch for a truncated sample)
+    out.append({'kind': 'gamma', 'vals': [int(v * S) for v in (0, 2.5, 0, 0.25, 4.0, 0, 1.5, 0, 0.75, 6.0, 0, 0, 3.0, 0.1, 0, 2.0, 0, 0, 8.0, 0.5)] * 5,
+                'switch': S, 'eta': None, 'n_max': 20, 'thr': [0, S // 2, S - 1, S, S + 1, 2 * S, 4 * S, 8 * S], 'op': None})
+    out.append({'kind': 'gamma', 'vals': [8 * S, 6 * S, 5 * S, 3 * S, 2 * S] + [0] * 15, 'switch': S, 'eta': None, 'n_max': 5,
+                'thr': [0, S - 1, S, 2 * S, 5 * S], 'op': 'greater'})
     # history probes (seeded C12-3: cache squared in place; seeded C12-4: sorted-trials memo keyed by id/size)
     out.append({'kind': 'hist_ts', 'R': [0.2, 0.5, 1.0, 1.7, 3.0, 0.05, 0.9, 12.0, 0.4, 0.0], 'N': 25,
                 'R2': [0.3, 2.5, 0.9], 'N2': 7, 'f': [0.25, 0.75], 'll': 0.0})
@@ -1062,6 +1231,8 @@ def run_one(ctx, case, lines, checks):
         run_poly_case(ctx, case, lines, checks)
         if case.get('probe'):
             run_hist_poly_case(ctx, case)
+    elif k == 'gamma':
+        run_gamma_case(ctx, case, lines, checks)
     elif k == 'hist_ts':
         run_hist_ts_case(ctx, case)
     elif k == 'hist_pval':
@@ -1135,6 +1306,8 @@ def run(ctx):
         if i % 10 == 0:
             c['probe'] = True
         cases.append(c)
+    for i in range(ctx.budget(36, 400)):
+        cases.append(gen_gamma_case(ctx, rng, adversarial=(i % 6 == 5)))
     for _ in range(ctx.budget(40, 400)):
         cases.append(gen_hist_ts_case(ctx, rng))
     for _ in range(ctx.budget(30, 300)):
@@ -1159,7 +1332,7 @@ def replay(ctx, rp):
     elif kind == 'mixed1':
         c = {'kind': 'pval', 'vals': c['vals'], 'thr': [c['thr']], 'switch': c['switch'], 'eta': c['eta'],
              'n_max': c['n_max'], 'bad_op': False}
-    elif kind not in ('ts', 'pval', 'poly', 'hist_ts', 'hist_pval'):
+    elif kind not in ('ts', 'pval', 'poly', 'hist_ts', 'hist_pval', 'gamma'):
         ctx.notes.append('replay file has no concrete input (broken obligation / signature table): re-running the full check')
         return run(ctx)
     c.pop('variant', None)
